@@ -1,11 +1,12 @@
 import EqsigVerif.Handlers.Displacements
 import EqsigVerif.Handlers.Peaks
 import EqsigVerif.Handlers.Switched
+import EqsigVerif.Handlers.PowerLaw
 /-! table of all driver handlers -/
 namespace EqsigVerif.Handlers
 open EqsigVerif.Wire
 
 def table : List (String × Handler) :=
-  Displacements.handlers ++ Peaks.handlers ++ Switched.handlers
+  Displacements.handlers ++ Peaks.handlers ++ Switched.handlers ++ PowerLaw.handlers
 
 end EqsigVerif.Handlers
